@@ -599,6 +599,84 @@ else:
     if fat["with_fatal_not_last"] == 0 and not ck.replay:
         ck.broken_ties.append({"kind": "coverage", "name": "no schedule with a fatal compile entering before another compile", "counts": fat})
 
+# ------------------------------------------------------------------ 4d: module hand-over between contexts
+# harness/c18_handover.c (includes mir.c; poisoning allocator): worker contexts build modules with hard-register
+# globals and hand them to a main context with MIR_change_module_ctx under a mutex; ownership monitor right
+# after the call (every name interned in the NEW context, no entry of the module left in the OLD item table),
+# then the old context is finished or kept busy (640 more items, equal names) while the new one prints, links
+# and runs the module.  The observed owners are also judged by the Lean monitor (mirdrv_c18 ho).
+ho = {"runs": 0, "handovers": 0, "refs_checked": 0, "variants": {"A": 0, "B": 0}, "failed_runs": 0, "lean_agree": 0}
+hexe, hcclog = build_harness("c18_handover", [], ["-w"])
+if hexe is None:
+    ck.broken_ties.append({"kind": "harness-compile", "name": "c18_handover", "log": hcclog[-1500:]})
+else:
+    hscheds = []
+    if ck.replay:
+        c = json.load(open(ck.replay))
+        h = c.get("handover") or (c.get("input") or {}).get("handover")
+        if h:
+            hscheds.append([str(x) for x in h])
+    else:
+        if os.path.isdir(os.path.join(VERIF, "corpus", PID)):
+            for f in sorted(os.listdir(os.path.join(VERIF, "corpus", PID))):
+                c = json.load(open(os.path.join(VERIF, "corpus", PID, f))) if f.endswith(".json") else {}
+                if c.get("handover"):
+                    hscheds.append([str(x) for x in c["handover"]])
+        hscheds += [["1", "2", "1", "A"], ["1", "2", "1", "B"], ["2", "2", "1", "AB"], ["3", "3", "2", "BAB"]]
+        for k in range(6 if ck.tier == "quick" else 80):
+            hscheds.append([str(1 + ck.rng.below(4)), str(1 + ck.rng.below(4)), str(1 + ck.rng.below(10**6))])
+    ho_violation = False
+    for a in hscheds:
+        try:
+            p = subprocess.run([hexe, *a], stdout=subprocess.PIPE, stderr=subprocess.PIPE, text=True, errors="replace", timeout=180)
+            rc, out = p.returncode, p.stdout
+        except subprocess.TimeoutExpired as e:
+            rc, out = -999, (e.stdout or "") if isinstance(e.stdout, str) else ""
+        lines = out.strip().split("\n")
+        sched = next((l for l in lines if l.startswith("SCHED")), "")
+        var = (re.search(r"variants=(\S+)", sched) or [None, ""])[1]
+        ho["runs"] += 1
+        for v in var:
+            ho["variants"][v] = ho["variants"].get(v, 0) + 1
+        hors = [l.split(" ") for l in lines if l.startswith("HOR ")]
+        hos = {(l.split(" ")[1], l.split(" ")[2]): l for l in lines if l.startswith("HO ")}
+        try:
+            inp = ""
+            for w in hors:
+                owners = w[5].split("=", 1)[1] if len(w) > 5 else ""
+                nnew, nstale = int(w[3].split("=")[1]), int(w[4].split("=")[1])
+                inp += "ho 0 1 7 R " + " ".join("1" if c == "N" else "0" for c in owners) + " T " + " ".join(["1:7"] * nnew + ["0:7"] * nstale) + "\n"
+            if inp:
+                drc, dout, derr = ck.drv("mirdrv_c18", [], inp)
+                verdicts = [l for l in dout.split("\n") if l.startswith("HO ")]
+                for w, v in zip(hors, verdicts):
+                    hl = hos.get((w[1], w[2]), "")
+                    harness_bad = not (" badrefs=0 " in hl and " stale_old_entries=0 " in hl)
+                    ho["handovers"] += 1
+                    ho["refs_checked"] += len(w[5].split("=", 1)[1]) if len(w) > 5 else 0
+                    if (v != "HO ok") == harness_bad:
+                        ho["lean_agree"] += 1
+                    else:
+                        ck.broken_ties.append({"kind": "correspondence", "name": "hand-over monitor: Lean vs harness", "first_diff": {"lean": v, "harness": hl}})
+        except Exception as e:
+            ck.broken_ties.append({"kind": "driver", "name": "mirdrv_c18 ho", "log": repr(e)})
+        failed = [l for l in lines if l.startswith("FAIL") or l.endswith("WRONG")]
+        done = next((l for l in lines if l.startswith("DONE")), None)
+        if failed or done != "DONE fails=0":
+            ho["failed_runs"] += 1
+            if not ho_violation:
+                ho_violation = True
+                args3 = [a[0], a[1], a[2], var or (a[3] if len(a) > 3 else "")]
+                ck.violation({"stage": "tie", "theorem_or_correspondence": "ownership after MIR_change_module_ctx (MirVerif.C18.handover_owned / handover_tab_clean / use_after_handover_confined)",
+                              "input": {"handover": args3, "schedule": sched},
+                              "model_output": "after the call every name reachable from the module is interned in the new context, the old context's item table has no entry of the module; "
+                                              "the receiving context prints the same text and computes the module's value whatever the giving context does afterwards",
+                              "impl_output": failed[:6] or [f"run ended without DONE (rc={rc})"] + lines[-3:], "how_to_rerun": " ".join([hexe, *args3])},
+                             what="module hand-over couples two contexts: " + (failed[0][:260] if failed else f"run did not complete (rc={rc})"),
+                             signature="C18:handover-ownership")
+    if not ck.replay and (ho["handovers"] == 0 or ho["variants"].get("A", 0) == 0 or ho["variants"].get("B", 0) == 0):
+        ck.broken_ties.append({"kind": "coverage", "name": "hand-over workloads did not run both variants", "counts": ho})
+
 # ------------------------------------------------------------------ 5: model correspondence
 PHASES = ["MIR_init", "c2mir_init", "c2mir_compile", "c2mir_finish", "MIR_scan_string", "MIR_output", "MIR_write",
           "MIR_module2c", "MIR_load_module", "MIR_gen_init", "MIR_link", "run", "code_patch", "MIR_gen_finish", "MIR_finish"]
@@ -717,7 +795,7 @@ if model_diffs:
     ck.broken_ties.append({"kind": "correspondence", "name": "footprint model vs harness/theorem", "first_diff": model_diffs[0]})
 
 # ------------------------------------------------------------------ evidence
-ck.cov["evaluations"] = n_compared + n_model + pg["contexts"] + fat["schedules"]
+ck.cov["evaluations"] = n_compared + n_model + pg["contexts"] + fat["schedules"] + ho["handovers"]
 ck.cov["distinct_nontrivial"] = len(combos)
 ck.cov["rule"] = ("evaluation = one thread-iteration workload (context init, c2mir compile, scan, output, write, load, link, run, "
                   "finish) executed concurrently with other threads and compared with its sequential run, plus model traces "
@@ -736,7 +814,7 @@ ck.cov.setdefault("distribution", {}).update({
     "inventory_status": {f"{k[0]}:{k[1]}": v for k, v in status.items()},
     "dynamically_confirmed": dyn_confirmed,
     "model_hyp_flags": sorted(hyp_bad_objects),
-    "model_traces": n_model, "model_harness_agree": n_model_ok, "code_pages": pg, "c2mir_fatal_schedules": fat,
+    "model_traces": n_model, "model_harness_agree": n_model_ok, "code_pages": pg, "c2mir_fatal_schedules": dict(fat, threads=sorted(set(fat["threads"]))), "handover": ho,
     "interfaces_hit": sorted({c[1] for c in combos if c[1] is not None}),
     "kinds_hit": sorted({c[0] for c in combos if c[0] is not None}),
 })
